@@ -860,7 +860,7 @@ def run(ck):
         if quick:
             ks = sorted(set(fib_upto(k1) + [k1, k1 + 1, k1 + 2]))
         else:
-            ks = list(range(0, min(k1, 70) + 21)) + [k for k in fib_upto(k1 + 20) if k > 70] + ([k1 + j for j in range(-2, 21)] if k1 > 70 else [])
+            ks = list(range(0, min(k1, 45) + 21)) + [k for k in fib_upto(k1 + 20) if k > 45] + ([k1 + j for j in range(-2, 21)] if k1 > 45 else [])
             ks = sorted(set(k for k in ks if k >= 0))
         K = k1 + 40 if first[p] is not None else 600
         names = [n for n in hs if n != "clearsol-sealed"]
@@ -911,7 +911,7 @@ def run(ck):
             for s in lseeds:
                 kk = probe_first_solution(rn, planner, s)[0] or 200
                 kk = min(kk, 400)
-                ks = sorted(set(fib_upto(kk) + [kk, kk + 1, kk + 2])) if quick else list(range(0, min(kk, 100) + 21))
+                ks = sorted(set(fib_upto(kk) + [kk, kk + 1, kk + 2])) if quick else list(range(0, min(kk, 60) + 21))
                 for k in ks:
                     for hn in lhs:
                         ljobs.append((s, hn, k, kk + 40, lhs[hn](k, kk + 40), planner))
